@@ -32,6 +32,13 @@ func (r expressionResult) firstValue() string {
 	return r.values[0]
 }
 
+// userName builds the name under which a user-defined variable or function is known to the converters.
+// The prefix makes sure user-defined names can never collide with names the converters or the
+// shell use themselves (e.g. _h0, _rv0, _dvc, PATH, IFS, echo, done).
+func userName(name string) string {
+	return "u_" + name
+}
+
 func BoolToString(b bool) string {
 	if b {
 		return "1"
@@ -372,7 +379,7 @@ func (t *transpiler) evaluateVarDefinition(definition parser.VariableDefinition)
 		if err != nil {
 			return err
 		}
-		err = t.converter.VarDefinition(variable.Name(), result.firstValue(), variable.Global())
+		err = t.converter.VarDefinition(userName(variable.Name()), result.firstValue(), variable.Global())
 
 		if err != nil {
 			return err
@@ -397,7 +404,7 @@ func (t *transpiler) evaluateVarDefinitionCallAssignment(definition parser.Varia
 	}
 
 	for i, variable := range variables {
-		err = t.converter.VarDefinition(variable.Name(), values[i], variable.Global())
+		err = t.converter.VarDefinition(userName(variable.Name()), values[i], variable.Global())
 
 		if err != nil {
 			return err
@@ -436,7 +443,7 @@ func (t *transpiler) evaluateVarAssignment(assignment parser.VariableAssignment)
 	}
 
 	for i, variable := range variables {
-		err := t.converter.VarDefinition(variable.Name(), values[i], variable.Global())
+		err := t.converter.VarDefinition(userName(variable.Name()), values[i], variable.Global())
 
 		if err != nil {
 			return err
@@ -461,7 +468,7 @@ func (t *transpiler) evaluateVarAssignmentCallAssignment(assignment parser.Varia
 	}
 
 	for i, variable := range variables {
-		err = t.converter.VarDefinition(variable.Name(), values[i], variable.Global())
+		err = t.converter.VarDefinition(userName(variable.Name()), values[i], variable.Global())
 
 		if err != nil {
 			return err
@@ -488,11 +495,11 @@ func (t *transpiler) evaluateSliceAssignment(assignment parser.SliceAssignment) 
 	if err != nil {
 		return err
 	}
-	return t.converter.SliceAssignment(assignment.Name(), indexResult.firstValue(), valueResult.firstValue(), defaultValue, assignment.Global())
+	return t.converter.SliceAssignment(userName(assignment.Name()), indexResult.firstValue(), valueResult.firstValue(), defaultValue, assignment.Global())
 }
 
 func (t *transpiler) evaluateVarEvaluation(evaluation parser.VariableEvaluation, valueUsed bool) (expressionResult, error) {
-	s, err := t.converter.VarEvaluation(evaluation.Name(), valueUsed, evaluation.Global())
+	s, err := t.converter.VarEvaluation(userName(evaluation.Name()), valueUsed, evaluation.Global())
 
 	if err != nil {
 		return expressionResult{}, err
@@ -593,11 +600,11 @@ func (t *transpiler) evaluateReturn(returnStatement parser.Return) error {
 }
 
 func (t *transpiler) evaluateFunctionDefinition(functionDefinition parser.FunctionDefinition) error {
-	name := functionDefinition.Name()
+	name := userName(functionDefinition.Name())
 	params := []string{}
 
 	for _, param := range functionDefinition.Params() {
-		params = append(params, param.Name())
+		params = append(params, userName(param.Name()))
 	}
 	conv := t.converter
 	err := conv.FuncStart(name, params, functionDefinition.ReturnTypes())
@@ -614,7 +621,7 @@ func (t *transpiler) evaluateFunctionDefinition(functionDefinition parser.Functi
 }
 
 func (t *transpiler) evaluateFunctionCall(functionCall parser.FunctionCall, valueUsed bool) (expressionResult, error) {
-	name := functionCall.Name()
+	name := userName(functionCall.Name())
 	args := []string{}
 
 	for _, arg := range functionCall.Args() {
@@ -716,7 +723,7 @@ func (t *transpiler) evaluateCopy(copy parser.Copy, valueUsed bool) (expressionR
 		return expressionResult{}, err
 	}
 	destination := copy.Destination()
-	amount, err := t.converter.Copy(destination.Name(), expr.firstValue(), valueUsed, destination.Global())
+	amount, err := t.converter.Copy(userName(destination.Name()), expr.firstValue(), valueUsed, destination.Global())
 
 	if err != nil {
 		return expressionResult{}, err
